@@ -4,8 +4,10 @@
     list, prod, sumbool, sumor).  N / positive / nat stay the extracted inductives. *)
 Require Extraction.
 Require Import ExtrOcamlBasic.
-From Yarl Require Import Base.PyStr Model.Path Spec.Rds Preds.P15.
+From Yarl Require Import Base.PyStr Model.Path Spec.Rds Preds.P15 Model.Quoters Model.Prog.
 
 Extraction "model.ml"
   exn_eqb bind normalize_path normalize_path_segments remove_dot_segments split join
-  c15_np_pred.
+  c15_np_pred
+  quote_n unquote_n
+  run_observe run_compare split_url split_netloc.
